@@ -19,8 +19,9 @@ Shape(e) == [reac |-> e.reac, prod |-> e.prod, ireac |-> e.ireac, iprod |-> e.ip
 
 Step(e) ==
     CASE e.ev = "AddReaction" -> AddReaction(Shape(e), e.kv)
-      [] e.ev = "SetState"    -> SetState(e.subst, e.c)
-      [] e.ev = "Feed"        -> Feed(e.F, e.cf)
+      [] e.ev = "SetState"    -> SetState(e.subst, e.c, e.phase)
+      [] e.ev = "Feed"        -> Feed(e.F, e.cf, e.order, e.usermap)
+      [] e.ev = "Reassign"    -> Reassign(e.i, e.kv)
       [] OTHER                -> FALSE
 
 (* observed monomial tables: sequences of <<coef, p, <<<<var, exp>>, ...>>>>; compared as sets *)
@@ -39,7 +40,7 @@ RvalsOK(e) == e.rvals = <<>> \/ (Len(e.rvals) = Len(rsys) /\ \A i \in DOMAIN rsy
 ContribOK(e) == e.contrib = <<>> \/ (Len(e.contrib) = Len(rsys) /\
     \A i \in DOMAIN rsys : \A j \in DOMAIN subst : e.contrib[i][j] = Contribution(rsys[i], c)[subst[j]])
 PolyOK(e) == e.poly = <<>> \/ (Len(e.poly) = Len(subst) /\
-    \A j \in DOMAIN subst : ObsPoly(e.poly[j]) = SpecPoly(RatePolyInlinedFed(rsys, subst[j], feed.on)))
+    \A j \in DOMAIN subst : ObsPoly(e.poly[j]) = SpecPoly(RatePolyInlinedFed(rsys, subst[j], Fed(feed, subst[j]))))
 SomeField(e) == e.rates # <<>> \/ e.poly # <<>>
 
 ResultOK(e) ==
@@ -79,4 +80,5 @@ NoCatalog == {}
 NoKVals == <<>>
 NoOrders == {}
 NoPoints == {}
+NoReK == {}
 =============================================================================
